@@ -30,6 +30,8 @@ type verifier struct {
 	quants         []smt.Quant
 	pre            *spec.Env
 	reqs           []*sx.T
+	scoped         []scopedReq // input assumptions granted by single properties: assumed for clauses of these properties only
+	curTags        []string    // tags of the clause whose goals are being built
 	values         []*sx.T
 	names          []string
 	args           []Val
@@ -93,11 +95,44 @@ func cloneVars(m map[types.Object]Val) map[types.Object]Val {
 	return n
 }
 
+type scopedReq struct {
+	tags []string
+	t    *sx.T
+}
+
+// propertyScoped: a requires clause tagged with property ids ([C01]) is an input assumption that only the quantifier of
+// these properties grants; it is assumed for the ensures clauses and invariants of these properties and for nothing else.
+func propertyScoped(tags []string) bool {
+	if len(tags) == 0 {
+		return false
+	}
+	for _, t := range tags {
+		if len(t) < 2 || t[0] != 'C' || t[1] < '0' || t[1] > '9' {
+			return false
+		}
+	}
+	return true
+}
+
 func (v *verifier) query(st *State, extraHyps []*sx.T, goal *sx.T) *smt.Query {
 	hyps := append([]*sx.T{}, st.defs...)
 	hyps = append(hyps, st.pc...)
 	hyps = append(hyps, st.facts...)
 	hyps = append(hyps, v.reqs...)
+	for _, r := range v.scoped {
+		// only if every property the clause counts for grants the assumption
+		all := len(v.curTags) > 0
+		for _, c := range v.curTags {
+			found := false
+			for _, t := range r.tags {
+				found = found || t == c
+			}
+			all = all && found
+		}
+		if all {
+			hyps = append(hyps, r.t)
+		}
+	}
 	hyps = append(hyps, extraHyps...)
 	if v.axioms == nil && v.sp != nil {
 		env := spec.NewEnv(v.sp, v.e.Structs)
@@ -339,6 +374,10 @@ func (e *Engine) VerifyFunc(pkgPath, key string, modular bool) (rep *FuncReport,
 	v.pre = v.envAt(st, names, args)
 	v.reqs = append(v.reqs, sx.App(">=", sx.Atom("notifs0"), sx.Int(0)), sx.App(">=", sx.Atom("xcalls0"), sx.Int(0)))
 	for _, c := range fs.Clauses {
+		if c.Kind == "requires" && propertyScoped(c.Tags) {
+			v.scoped = append(v.scoped, scopedReq{tags: c.Tags, t: v.pre.Tr(c.E).T})
+			continue
+		}
 		if c.Kind == "requires" {
 			t := v.pre.Tr(c.E).T
 			v.reqs = append(v.reqs, t)
@@ -421,9 +460,11 @@ func (e *Engine) VerifyFunc(pkgPath, key string, modular bool) (rep *FuncReport,
 				continue
 			}
 			goal := env.Tr(c.E).T
+			v.curTags = c.Tags
 			for _, g := range smt.SplitGoal(goal) {
 				v.add(fmt.Sprintf("%s#ensures%d", base, c.Ord), c.Tags, c.Text, v.query(ex.St, nil, g))
 			}
+			v.curTags = nil
 			if c.Finding != "" {
 				// the same clause outside the region of the known finding (region is read in the pre-state)
 				notRegion := sx.Not(v.pre.Tr(c.Region).T)
@@ -450,9 +491,11 @@ func (e *Engine) VerifyFunc(pkgPath, key string, modular bool) (rep *FuncReport,
 		if ast.IsExported(fn.Name()) && decl.Recv == nil {
 			for _, inv := range sp.Invs {
 				goal := env.Tr(inv.Body).T
+				v.curTags = inv.Tags
 				for _, g := range smt.SplitGoal(goal) {
 					v.add(fmt.Sprintf("%s#inv.%s", base, inv.Name), inv.Tags, inv.Name, v.query(ex.St, nil, g))
 				}
+				v.curTags = nil
 			}
 		}
 		// canary: false must not be provable
